@@ -1,5 +1,6 @@
 pub mod c01;
 pub mod scenes;
+pub mod c07;
 pub mod c10;
 pub mod c11;
 pub mod c14;
@@ -11,6 +12,7 @@ pub fn dispatch(ctx: &Ctx) -> Option<Outcome> {
     match ctx.prop.as_str() {
         "C01" => Some(c01::run(ctx)),
         "C02" | "C03" | "C05" | "C06" | "C18" => Some(scenes::run(ctx)),
+        "C07" => Some(c07::run(ctx)),
         "C10" => Some(c10::run(ctx)),
         "C11" => Some(c11::run(ctx)),
         "C14" => Some(c14::run(ctx)),
